@@ -29,6 +29,8 @@ Events (text form, ` ; `-separated in corpus / replay files):
 import asyncio
 import json
 import logging
+import signal
+import threading
 
 from harness import fake_transport as FT
 from harness import vloop
@@ -396,22 +398,63 @@ def parse_events(text):
     return evs
 
 
+WATCHDOG_S = 20      # wall-clock seconds for ONE case (a normal case takes ~1 ms)
+
+
+class _Spin(BaseException):
+    """raised by the wall-clock watchdog: code under test loops without ever yielding to the
+    event loop (the virtual loop cannot see that)"""
+
+
+def _watchdog(signum, frame):
+    raise _Spin()
+
+
 def run_events(repo, cfg, events):
     """-> (list of per-event observations, final World summary) ; never raises for loop stalls:
-    Deadlock / Livelock are recorded as observations"""
-    w = World(repo, cfg.get('skind', 'rpc'), cfg.get('transport', 'rs'), cfg.get('stalled', False),
-              cfg.get('ptimeout'), cfg.get('req_timeout'))
-    obs, stall = [], None
+    Deadlock / Livelock (also: a wall-clock watchdog for code that spins without yielding) are
+    recorded as observations"""
+    use_alarm = threading.current_thread() is threading.main_thread()
+    old = None
+    if use_alarm:
+        old = signal.signal(signal.SIGALRM, _watchdog)
+        signal.setitimer(signal.ITIMER_REAL, WATCHDOG_S)
+    w = None
     try:
-        for i, ev in enumerate(events):
-            try:
-                obs.append(w.act(ev))
-            except (vloop.Deadlock, vloop.Livelock) as e:
-                stall = (i, type(e).__name__)
-                break
-        return obs, summary(w, stall)
+        try:
+            w = World(repo, cfg.get('skind', 'rpc'), cfg.get('transport', 'rs'),
+                      cfg.get('stalled', False), cfg.get('ptimeout'), cfg.get('req_timeout'))
+            obs, stall = [], None
+            for i, ev in enumerate(events):
+                try:
+                    obs.append(w.act(ev))
+                except (vloop.Deadlock, vloop.Livelock) as e:
+                    stall = (i, type(e).__name__)
+                    break
+            if use_alarm:
+                signal.setitimer(signal.ITIMER_REAL, 0)
+            return obs, summary(w, stall)
+        except _Spin:
+            return [], spin_summary(len(events))
     finally:
-        w.close()
+        if use_alarm:
+            signal.setitimer(signal.ITIMER_REAL, 0)
+            signal.signal(signal.SIGALRM, old)
+        if w is not None:
+            try:
+                w.close()
+            except BaseException:      # noqa
+                pass
+
+
+def spin_summary(n):
+    return {'stall': (0, 'Livelock'), 'handlers': {}, 'outs': {}, 'closers': {}, 'aborters': [],
+            'hook_times': [], 'lost_at': None, 'pending_at_loss': None, 'in_body_at_loss': None,
+            'pending_at_hook': None, 'in_body_at_hook': None, 'closed_event': False,
+            'closing': False, 'lost_delivered': False, 'leftover_session_tasks': 0,
+            'leftover_own_tasks': 0, 'aborts': [], 'message_task': None, 'loop_exceptions': [],
+            'now': 0, 'writes_after_close': 0, 'max_send_delay': 0, 'processing_timeout': 0,
+            'spin': True}
 
 
 def summary(w, stall):
